@@ -434,7 +434,7 @@ Definition token_endpoint_body_subject (i : idp) (now : Z) (r : treq) : tresult 
       | Some c =>
         if nonempty (tr_verifier r) && nonempty (cl_secret c) then Refuse 401
         else
-          let valid := nonempty (tr_verifier r) && pkce_ok k (tr_verifier r) (tr_vhash r) in
+          let valid := nonempty (tr_verifier r) && pkce_ok (srv i) k (tr_verifier r) (tr_vhash r) in
           let valid := if negb valid && nonempty pass then bs_eqb pass (cl_secret c) else valid in
           if negb valid then Refuse 401
           else if negb (bs_eqb (if nonempty (tr_form_client r) then tr_form_client r else id) (c_sub k)) then Refuse 401
